@@ -10,20 +10,21 @@ import (
 
 // Spec is a data description of a closed scenario on the full fixture (NewServer + Router + Run over vnet).
 type Spec struct {
-	Name          string
-	Props         []string
-	Srv           SrvOpts
-	Conns         []ConnSpec
-	StopWhen      string // "clients-done" (default) | "now" (concurrently with the clients) | "note:<n>" | "never"
-	SecondStop    bool   // a second thread calls Stop concurrently
-	StopBeforeRun bool   // Stop is called (and returns) before Run starts
-	ExpectCrash   bool
-	Quick, Thor   int
-	MaxPts        int
-	Extra         func(w *World) // extra threads (pollers, ...) spawned after the server
-	Check         func(x *vrt.Sched, w *World) []Finding
-	ClientsIdle   bool // clients that "stay" never act again: a wait for them is a wait for the environment
-	NoRaces       bool // the scenario leaves the precondition of C15 (e.g. Router called while serving): races are not reported
+	Name           string
+	Props          []string
+	Srv            SrvOpts
+	Conns          []ConnSpec
+	StopWhen       string // "clients-done" (default) | "now" (concurrently with the clients) | "note:<n>" | "never"
+	SecondStop     bool   // a second thread calls Stop concurrently
+	StopBeforeRun  bool   // Stop is called (and returns) before Run starts
+	ExpectCrash    bool
+	Quick, Thor    int
+	MaxPts         int
+	Extra          func(w *World) // extra threads (pollers, ...) spawned after the server
+	Check          func(x *vrt.Sched, w *World) []Finding
+	ClientsIdle    bool // clients that "stay" never act again: a wait for them is a wait for the environment
+	ReplacedUnbind bool // the scenario replaces the unbind route before any Unbind is sent
+	NoRaces        bool // the scenario leaves the precondition of C15 (e.g. Router called while serving): races are not reported
 }
 
 type ConnSpec struct {
@@ -43,6 +44,9 @@ type ConnSpec struct {
 	After      int    // >0: this connection is opened by the thread of connection number After (1-based) once that one has ended
 	ReadNote   string // wait for this note after sending and before reading anything
 	IdleBefore int    // virtual seconds to sleep after connecting and before sending anything
+	SendNote   string // wait for this note before sending the last segment
+	AckAt      int    // after this many frames have been read, raise AckNote (then go on reading)
+	AckNote    string
 	// ClearBehind: a request sent in the clear in the same write as the StartTLS request, directly behind it
 	// (request index 90); RFC 4511 4.14.1 forbids it, an attacker on the path can do it
 	ClearBehind string
@@ -268,6 +272,9 @@ func runClient(w *World, ci int, name string, cs *ConnSpec) {
 		expectSoFar += framesFor(cs.H[k])
 		inSeg++
 		if segs != nil && si < len(segs) && inSeg == segs[si] {
+			if cs.SendNote != "" && si == len(segs)-1 {
+				vrt.WaitUntil(cs.SendNote, func() bool { return w.Notes[cs.SendNote] > 0 })
+			}
 			flush()
 			si++
 			inSeg = 0
@@ -279,6 +286,12 @@ func runClient(w *World, ci int, name string, cs *ConnSpec) {
 	flush()
 	if cs.ReadNote != "" {
 		vrt.WaitUntil(cs.ReadNote, func() bool { return w.Notes[cs.ReadNote] > 0 })
+	}
+	if cs.AckAt > 0 {
+		cl.ReadFrames(cs.AckAt)
+		if len(cl.Frames) >= cs.AckAt {
+			vrt.Atomic(func() { w.Notes[cs.AckNote]++ })
+		}
 	}
 	switch cs.Read {
 	case "":
@@ -323,7 +336,7 @@ func (sp *Spec) realOK() bool {
 		return false
 	}
 	for _, c := range sp.Conns {
-		if c.RecvBuf > 0 || c.IdleFor > 0 || c.IdleBefore > 0 || c.End == "stay" || c.End == "half" || c.ReadNote != "" {
+		if c.RecvBuf > 0 || c.IdleFor > 0 || c.IdleBefore > 0 || c.End == "stay" || c.End == "half" || c.ReadNote != "" || c.AckAt > 0 || c.SendNote != "" {
 			return false
 		}
 	}
